@@ -8,6 +8,7 @@ import (
 	"os"
 	"os/exec"
 	"path/filepath"
+	"runtime/pprof"
 	"sort"
 	"strconv"
 	"strings"
@@ -101,6 +102,15 @@ func main() {
 		}
 	}
 	repoDir = o.repo
+	if pf := os.Getenv("VERIF_PROF"); pf != "" {
+		f, _ := os.Create(pf)
+		pprof.StartCPUProfile(f)
+		go func() {
+			time.Sleep(45 * time.Second)
+			pprof.StopCPUProfile()
+			f.Close()
+		}()
+	}
 	if o.list {
 		var ids []string
 		for id := range props {
@@ -233,7 +243,7 @@ func checkProp(p *Prop, tier, onlyRun string, keepLogs, trace, validate bool) in
 			}
 		}
 		if tier == "thorough" && len(c.Cross) == 0 && !c.NoCross {
-			c.Cross = []string{"z3-new"}
+			c.Cross = []string{"z3"}
 		}
 		sel = append(sel, c)
 	}
